@@ -1,7 +1,9 @@
 (* C08/Properties.v — property theorems only.  Each is closed by [exact lemma],
    pinned by [Check name : statement] and followed by [Print Assumptions]. *)
-From Coq Require Import Sorting.Sorted Sorting.Permutation.
-From RM Require Import C08.Model C08.Proofs C08.IndexProofs C08.WinModel C08.WinProofs C08.Driver Gen.C08Tables C08.Tie C08.EndToEnd C08.StreamRead.
+From Coq Require Import Sorting.Sorted Sorting.Permutation Strings.String Strings.Ascii.
+From RM Require C09.Model C09.Grammar C09.Driver.
+From RM Require Import C08.SymText.
+From RM Require Import C08.Model C08.Proofs C08.IndexProofs C08.WinModel C08.WinProofs C08.Driver Gen.C08Tables C08.Tie C08.EndToEnd C08.StreamRead C08.Unified.
 Open Scope Z_scope.
 
 (* Building never fails: the final RangeMap::try_from_iter(vec).unwrap() discards
@@ -439,3 +441,174 @@ Example c08_nonvacuous_unloaded_read :
   g_unloaded_read Debug ((0, 0) :: good) = Ret None /\
   g_unloaded_read Release (good ++ [(18446744073709551615, 1)]) = Ret None.
 Proof. cbv zeta. split; [|split]; [repeat constructor; cbn; discriminate..|repeat split; vm_compute; reflexivity]. Qed.
+
+(* ---- symbol-file tables from the TEXT.  C09/Grammar.v is the byte-level model of SymbolFile::parse (line recognisers
+   + SymbolParser::finish, which calls C08's builders); C09 proves that the parse of any byte string ends with Ok or
+   Err and that finish never panics.  Composed with the table theorems above (C08/SymText.v):
+   for EVERY byte string and EVERY way the reader may chunk it, if the parse is Ok then the finished symbol table
+   exists and (SymText.tables_sound)
+     - the FUNC table, the line table of every function in it, the STACK CFI INIT table and the two STACK WIN tables
+       are sorted and non-overlapping (sorted_table);
+     - `functions.get(x) = Some f`: a line of the text is a FUNC record with f's address, size, parameter size and
+       name (func_line), size <> 0, address + size < 2^64 and address <= x < address + size; and `f.lines.get(y) =
+       Some l`: a line of the text is the line record l (line_line), 0 < l.size, no overflow,
+       l.address <= y <= l.address + l.size - 1;
+     - `cfi_stack_info.get(x) = Some c`: a line of the text is a STACK CFI INIT record with c's init rule and size
+       (cfi_line), and init.address <= x < init.address + size without overflow;
+     - `win_stack_{framedata,fpo}_info.get(x) = Some w`: a line of the text is a STACK WIN record w0 of that type with
+       w = w0 except for a size shortened by the overlap repair (0 < w.size <= w0.size), and
+       w.address <= x < w.address + w.size without overflow.
+   No hypothesis about the text is left: every numeric bound comes from the digit limits of the recognisers. *)
+Theorem c08_text_tables_sound :
+  forall (bytes : list Z) (sch : list Z) p s,
+    let lines := map C09.Grammar.to_rle (fst (C09.Grammar.split_bytes bytes [])) in
+    C09.Driver.drive_c lines (Z.of_nat (length (snd (C09.Grammar.split_bytes bytes [])))) sch = Ret (C09.Model.ROk p, s) ->
+    C09.Grammar.join_bytes (fst (C09.Grammar.split_bytes bytes [])) (snd (C09.Grammar.split_bytes bytes [])) = bytes /\
+    exists t, C09.Driver.table_of (C09.Model.ROk p) = Ret (Some t) /\ tables_sound lines t.
+Proof. exact text_tables_sound_bytes. Qed.
+Print Assumptions c08_text_tables_sound.
+
+(* the same for an input given as complete lines + an unterminated rest, and what SymbolParser::finish guarantees on
+   every parser state the recognisers can build (pst_wf) whose records come from the lines (prov) *)
+Theorem c08_text_finish_sound :
+  (forall lines tail sch p s, C09.Driver.drive_c lines tail sch = Ret (C09.Model.ROk p, s) ->
+     exists t, C09.Driver.table_of (C09.Model.ROk p) = Ret (Some t) /\ tables_sound lines t) /\
+  (forall lines p t, C09.ProofsFinish.pst_wf p -> prov lines p -> C09.Grammar.finish p = Ret t -> tables_sound lines t) /\
+  (forall lines, prov lines C09.Grammar.init_pst) /\
+  (forall lines p s p', In s lines -> prov lines p -> C09.Grammar.recog_pst p s = inl p' -> prov lines p').
+Proof.
+  split; [exact text_tables_sound|]. split; [exact st_tables_sound|]. split; [exact prov_init|exact prov_recog].
+Qed.
+Print Assumptions c08_text_finish_sound.
+
+(* non-vacuity: a text with two overlapping FUNCs (the second is dropped), line records (one empty, one conflicting),
+   a STACK CFI INIT record, two overlapping STACK WIN records (the first is shortened) and a FUNC reaching past the
+   address space, read 3 and 5 bytes at a time and then whole: the parse is Ok and the lookups answer *)
+Fixpoint bytes_of_string (s : string) : list Z :=
+  match s with EmptyString => [] | String c r => Z.of_N (N_of_ascii c) :: bytes_of_string r end.
+Definition nl : string := String (ascii_of_nat 10) EmptyString.
+Definition ex_text : list Z := bytes_of_string
+  ("MODULE windows x86 ABCD m" ++ nl ++ "FUNC 10 8 0 f" ++ nl ++ "10 4 7 1" ++ nl ++ "14 0 8 1" ++ nl ++ "12 9 9 1" ++ nl ++
+   "FUNC 14 8 0 g" ++ nl ++ "STACK CFI INIT 10 8 .cfa: $esp 4 +" ++ nl ++
+   "STACK WIN 4 0 a 0 0 0 0 0 0 1 $eip" ++ nl ++ "STACK WIN 4 1 9 0 0 0 0 0 0 1 $eip" ++ nl ++
+   "FUNC ffffffffffffffff 2 0 h" ++ nl)%string.
+Example c08_nonvacuous_text :
+  match C09.Driver.drive_c (map C09.Grammar.to_rle (fst (C09.Grammar.split_bytes ex_text [])))
+                           (Z.of_nat (length (snd (C09.Grammar.split_bytes ex_text [])))) [3; 5] with
+  | Ret (C09.Model.ROk p, s) =>
+      match C09.Driver.table_of (C09.Model.ROk p) with
+      | Ret (Some t) =>
+          (map (fun e => (fst e, map fst (C09.Grammar.sf_lines (snd e)))) (C09.Grammar.t_funcs t),
+           map fst (C09.Grammar.t_cfi t),
+           map (fun e => (fst e, C09.Grammar.wi_size (snd e))) (C09.Grammar.t_win_fd t),
+           match rm_get (C09.Grammar.t_funcs t) 18 with
+           | Some f => Some (C09.Grammar.sf_addr f, C09.Grammar.sf_size f,
+                             option_map C11.Model.l_line (rm_get (C09.Grammar.sf_lines f) 19))
+           | None => None end)
+          = ([((16, 23), [(16, 19)])], [(16, 23)], [((0, 0), 1); ((1, 9), 9)], Some (16, 8, Some 7))
+      | _ => False
+      end
+  | _ => False
+  end.
+Proof. vm_compute. reflexivity. Qed.
+
+(* ---- the forwarding views UnifiedMemoryList / UnifiedMemoryInfoList, GENERATED from their source (which method every
+   arm calls, which wrapper it applies, the two halves of by_addr, which source `new` prefers): a lookup / iteration
+   through a view is the lookup / by-address iteration of the wrapped list under the wrapper of the same variant ---- *)
+Theorem c08_gen_unified_views :
+  (forall l, (forall x, g_uml_memory_at_address l x = option_map (uml_wrap l) (rm_get (fst (uml_lst l)) x)) /\
+             g_uml_by_addr l = map (uml_wrap l) (map snd (fst (uml_lst l)))) /\
+  (forall l, (forall x, g_umil_memory_info_at_address l x = option_map (umil_wrap l) (rm_get (fst (umil_lst l)) x)) /\
+             g_umil_by_addr l = map (umil_wrap l) (map snd (fst (umil_lst l)))) /\
+  (forall info maps, g_umil_new info maps =
+     match info with Some i => Some (GUMIL_Info i) | None => option_map GUMIL_Maps maps end).
+Proof. split; [exact g_uml_forward|]. split; [exact g_umil_forward|exact g_umil_new_spec]. Qed.
+Print Assumptions c08_gen_unified_views.
+
+(* end to end through UnifiedMemoryList (either variant), from the raw (base, size) fields: the region a lookup returns
+   is of the list's own variant, its index is in bounds, base <= x < base + size without overflow; by_addr is the
+   wrapped table in address order; an isolated region is found *)
+Theorem c08_end_to_end_unified_memory : forall p ents (mk : g_lst -> g_uml),
+  In mk [GUML_Memory; GUML_Memory64] -> u64_ents ents ->
+  exists t, g_indexed_table (g_mr_MinidumpMemoryBase p) ents = Ret t /\
+    let l := mk (t, Z.of_nat (length ents)) in
+    (forall x u, g_uml_memory_at_address l x = Some u ->
+       u = uml_wrap l (um_index u) /\ 0 <= um_index u < Z.of_nat (length ents) /\
+       exists b s, nth_error ents (Z.to_nat (um_index u)) = Some (b, s) /\ s <> 0 /\ b + s < two64 /\ b <= x < b + s) /\
+    g_uml_by_addr l = map (uml_wrap l) (map snd t) /\
+    StronglySorted (fun a b => snd (fst a) < fst (fst b)) t /\
+    (forall e1 b s e2 x, ents = e1 ++ (b, s) :: e2 -> s <> 0 -> b + s < two64 -> b <= x < b + s ->
+        (forall b' s', In (b', s') (e1 ++ e2) -> s' = 0 \/ two64 <= b' + s' \/ b' + s' <= b \/ b + s <= b') ->
+        g_uml_memory_at_address l x = Some (uml_wrap l (Z.of_nat (length e1)))).
+Proof. exact unified_memory_end_to_end. Qed.
+Print Assumptions c08_end_to_end_unified_memory.
+
+(* ... and through UnifiedMemoryInfoList: over a memory-info list (size-based) and over Linux maps ((first, last) pairs) *)
+Theorem c08_end_to_end_unified_info : forall p ents, u64_ents ents ->
+  (exists t, g_indexed_table (g_mr_MinidumpMemoryInfo p) ents = Ret t /\
+     let l := GUMIL_Info (t, Z.of_nat (length ents)) in
+     (forall x u, g_umil_memory_info_at_address l x = Some u ->
+        u = GUMI_Info (umi_index u) /\ 0 <= umi_index u < Z.of_nat (length ents) /\
+        exists b s, nth_error ents (Z.to_nat (umi_index u)) = Some (b, s) /\ s <> 0 /\ b + s < two64 /\ b <= x < b + s) /\
+     g_umil_by_addr l = map GUMI_Info (map snd t) /\ StronglySorted (fun a b => snd (fst a) < fst (fst b)) t) /\
+  (exists t, g_indexed_table g_mr_MinidumpLinuxMapInfo ents = Ret t /\
+     let l := GUMIL_Maps (t, Z.of_nat (length ents)) in
+     (forall x u, g_umil_memory_info_at_address l x = Some u ->
+        u = GUMI_Map (umi_index u) /\ 0 <= umi_index u < Z.of_nat (length ents) /\
+        exists lo hi, nth_error ents (Z.to_nat (umi_index u)) = Some (lo, hi) /\ lo <= x <= hi) /\
+     g_umil_by_addr l = map GUMI_Map (map snd t) /\ StronglySorted (fun a b => snd (fst a) < fst (fst b)) t).
+Proof. exact unified_info_end_to_end. Qed.
+Print Assumptions c08_end_to_end_unified_info.
+
+Example c08_nonvacuous_unified :
+  let ents := [(5, 10); (0, 0); (7, 2); (20, 1); (18446744073709551600, 15)] in
+  u64_ents ents /\
+  match g_indexed_table (g_mr_MinidumpMemoryBase Debug) ents with
+  | Ret t => let l := GUML_Memory64 (t, 5) in
+             (g_uml_memory_at_address l 20, g_uml_memory_at_address l 16, g_uml_by_addr l)
+             = (Some (GUM_Memory64 3), None, [GUM_Memory64 0; GUM_Memory64 3; GUM_Memory64 4])
+  | _ => False
+  end /\
+  g_umil_new (Some ([], 0)) (Some ([((1, 2), 0)], 1)) = Some (GUMIL_Info ([], 0)).
+Proof. cbv zeta. split; [repeat constructor; cbn; discriminate|split; vm_compute; reflexivity]. Qed.
+
+(* ---- the *_at_address / by_addr of the index-valued lists, GENERATED from their bodies (`.map(|&index| &self.v[index])`
+   -> g_lookup_index with the index as a panic site, `.and_then(|&index| self.v.get(index))` -> g_lookup_get,
+   `.ranges_values().map(.. &self.v[index])` -> g_iter_index), on the table the generated builder makes from the raw
+   entries: no index panic in any of them; the entry a lookup returns has base <= x < base + size without overflow;
+   by_addr yields, for every table range in (sorted, non-overlapping) address order, the entry whose own range it is ---- *)
+Theorem c08_gen_lookups_total : forall mr : profile -> Z -> Z -> outcome (option range),
+  In mr [g_mr_MinidumpModule; g_mr_MinidumpMemoryBase; g_mr_MinidumpMemoryInfo] ->
+  forall p ents, u64_ents ents ->
+  exists t, g_indexed_table (mr p) ents = Ret t /\
+    StronglySorted (fun a b => snd (fst a) < fst (fst b)) t /\
+    (forall x, exists o,
+        g_MinidumpModuleList_module_at_address ents t x = Ret o /\
+        g_MinidumpMemoryListBase_memory_at_address ents t x = Ret o /\
+        g_MinidumpMemoryInfoList_memory_info_at_address ents t x = Ret o /\
+        forall b s, o = Some (b, s) -> s <> 0 /\ b + s < two64 /\ b <= x < b + s) /\
+    exists l,
+        g_MinidumpModuleList_by_addr ents t = Ret l /\ g_MinidumpMemoryListBase_by_addr ents t = Ret l /\
+        g_MinidumpMemoryInfoList_by_addr ents t = Ret l /\
+        Forall2 (fun e a => fst e = (fst a, fst a + snd a - 1) /\ snd a <> 0 /\ fst a + snd a < two64) t l.
+Proof. exact lists_lookup_end_to_end. Qed.
+Print Assumptions c08_gen_lookups_total.
+
+Theorem c08_gen_lookups_total_maps : forall ents, u64_ents ents ->
+  exists t, g_indexed_table g_mr_MinidumpLinuxMapInfo ents = Ret t /\
+    StronglySorted (fun a b => snd (fst a) < fst (fst b)) t /\
+    (forall x, exists o, g_MinidumpLinuxMaps_memory_info_at_address ents t x = Ret o /\
+        forall lo hi, o = Some (lo, hi) -> lo <= x <= hi) /\
+    exists l, g_MinidumpLinuxMaps_by_addr ents t = Ret l /\ Forall2 (fun e a => fst e = a /\ fst a <= snd a) t l.
+Proof. exact maps_lookup_end_to_end. Qed.
+Print Assumptions c08_gen_lookups_total_maps.
+
+Example c08_nonvacuous_lookups :
+  let ents := [(5, 10); (0, 0); (7, 2); (20, 1); (18446744073709551600, 15)] in
+  match g_indexed_table (g_mr_MinidumpModule Release) ents with
+  | Ret t => (g_MinidumpModuleList_module_at_address ents t 14, g_MinidumpMemoryListBase_memory_at_address ents t 15,
+              g_MinidumpModuleList_by_addr ents t, g_MinidumpModuleList_module_at_address [(5, 10)] t 20)
+             = (Ret (Some (5, 10)), Ret None, Ret [(5, 10); (20, 1); (18446744073709551600, 15)], Panic PANIC_G_INDEX)
+  | _ => False
+  end.
+Proof. vm_compute. reflexivity. Qed.
